@@ -10,8 +10,10 @@ characterise the unique optimum; the oracle checks them on the forecast itself.
 """
 from __future__ import annotations
 
+import datetime
 import math
 import re
+import types
 
 import numpy as np
 import pandas as pd
@@ -21,6 +23,8 @@ from hypothesis import strategies as st
 import biogeme.database  # noqa: F401
 import biogeme.expressions  # noqa: F401
 import biogeme.mdcev  # noqa: F401
+import biogeme.results  # noqa: F401
+from biogeme.function_output import BiogemeFunctionOutput
 
 from .. import isolate
 from ..runner import Outcome, SubCheck
@@ -40,10 +44,16 @@ ASSUMPTIONS = [
     'dual variable is within tolerance_dual (plus float resolution) of its optimal value',
     'parameters are Beta (free or fixed) or Numeric expressions, prices Numeric (the forecasting code '
     'reads them with get_value()); labels are distinct non-negative integers; one or two data rows',
-    'a model object carries no state from one forecast/validation to the next as long as neither its '
-    'expressions nor its estimation results change: the documented inputs of forecast, validation and of the '
-    'numeric pieces are the arguments of the call, so each use equals the same use by a new model object '
-    '(histories never modify a Database in place and never estimate)',
+    'a model object carries no state from one forecast/validation to the next other than its estimation '
+    'results: the documented inputs of forecast, validation and of the numeric pieces are the arguments of the '
+    'call, so each use equals the same use by a new model object that has been given the same estimation '
+    'results; assigning estimation_results replaces the values of all parameters (the setter updates the '
+    'expressions), whatever the model was used for before and whichever Database objects it has already seen',
+    'estimation results are bioResults objects built the way BIOGEME.estimate builds them (RawResults + '
+    'bioResults) from a stub carrying the attributes RawResults reads, all Beta parameters of the model free; '
+    'they are given to models with free parameters only. Modifying database.data in place between two uses of '
+    'the same Database object is outside the generated domain (a Database handed to the model is not changed '
+    'afterwards), and so is changing the expressions of the model by hand',
 ]
 BUDGETS = dict(quick=dict(shards=8), thorough=dict(shards=16))
 
@@ -795,6 +805,67 @@ def judge_pieces(spec) -> Outcome:
 #   ['one_draw', s, r, d, name, method]     forecast_bisection_one_draw / forecast_bruteforce_one_draw on a
 #                                           hand-made one-row Database called `name`, draw d of row r
 #   ['pieces', s, r, name, points]          the numeric pieces on a hand-made one-row Database called `name`
+#   ['results', k]                          model.estimation_results = bioResults holding the parameter values
+#                                           spec['results'][k] (same parameters, other values)
+# validation, one_draw and pieces carry a last element `same_object`: True = hand the model the one-row
+# Database OBJECT that an earlier operation made for the same (name, s, r), if there is one; False = a new
+# object. name None = row r of Database.mdcev_row_split() of the sample.
+
+
+def op_states(ops):
+    """For every operation the index of the estimation results in force when it runs (None: none yet)."""
+    states, current = [], None
+    for op in ops:
+        states.append(current)
+        if op[0] == 'results':
+            current = op[1]
+    return states
+
+
+def params_view(spec, state):
+    """The spec with the parameter values of the estimation results `state` (None: initial values)."""
+    if state is None:
+        return spec
+    return dict(spec, alts=spec['results'][state]['alts'], scale=spec['results'][state]['scale'])
+
+
+def beta_values(spec, state):
+    """{name of the Beta: value} of the parameter vector `state`, names as in build_model."""
+    pv = params_view(spec, state)
+    values = {}
+    for i, alt in enumerate(pv['alts']):
+        terms = [(f'v{i}', alt['V'])] + ([(f'm{i}', alt['mu'])] if spec['variant'] == 'nonmono' else [])
+        for prefix, term in terms:
+            values[f'{prefix}_c'] = term['c']
+            for name, b in term['b']:
+                values[f'{prefix}_{name}'] = b
+        if alt['gamma'] is not None:
+            values[f'gamma{i}'] = alt['gamma']
+        if spec['variant'] != 'gamma' or spec.get('alpha_given', True):
+            values[f'alpha{i}'] = alt['alpha']
+    if pv['scale'] is not None:
+        values['scale'] = pv['scale']
+    return values
+
+
+def make_results(values):
+    """bioResults built the way BIOGEME.estimate builds it (RawResults(model, xstar, f_g_h_b)), from a stub
+    that carries the attributes RawResults reads; all parameters free, estimates = `values`."""
+    names = list(values)
+    k = len(names)
+    stub = types.SimpleNamespace(
+        modelName='c18', user_notes=None,
+        id_manager=types.SimpleNamespace(free_betas=types.SimpleNamespace(names=names)),
+        initLogLike=-10.0, nullLogLike=-12.0, get_bounds_on_beta=lambda name: (None, None),
+        database=types.SimpleNamespace(name='c18_estimation', get_sample_size=lambda: 50,
+                                       get_number_of_observations=lambda: 50, typesOfDraws={}, excludedData=0),
+        monte_carlo=False, number_of_draws=0, drawsProcessingTime=datetime.timedelta(0),
+        optimizationMessages={'Algorithm': 'synthetic outcome'}, convergence=True, number_of_threads=1,
+        bootstrap_time=datetime.timedelta(0))
+    fgh = BiogemeFunctionOutput(function=-8.0, gradient=np.zeros(k), hessian=-np.eye(k), bhhh=np.eye(k))
+    raw = biogeme.results.RawResults(stub, np.array([values[name] for name in names], dtype=float), fgh,
+                                     bootstrap=None)
+    return biogeme.results.bioResults(the_raw_results=raw, identification_threshold=1e-5)
 
 
 def sample_view(spec, s, r=None, d=None):
@@ -825,14 +896,31 @@ def _eps_arrays(m, labels, eps):
     return arrays
 
 
-def _run_op(m, spec, op):
-    """Runs in the child: one use of the model object `m`, as plain data."""
+def _run_op(m, spec, op, objects=None):
+    """Runs in the child: one use of the model object `m`, as plain data. `objects` keeps the one-row
+    Database objects handed to the model so far, by (name, sample, row)."""
     from biogeme.database import Database
 
     labels = spec['labels']
     kind, s = op[0], op[1]
+    if kind == 'results':
+        try:
+            m.estimation_results = make_results(beta_values(spec, op[1]))
+            return dict(results=op[1])
+        except Exception as e:  # noqa
+            return dict(exc=_exc(e))
     sample = spec['samples'][s]
     budget, tol_d, tol_b = spec['budget'], spec['tol_dual'], spec['tol_budget']
+
+    def one_row(db, name, r):
+        key = (name, s, r)
+        if objects is not None and op[-1] and key in objects:
+            return objects[key]
+        one = db.mdcev_row_split()[r] if name is None else Database(name, db.data.iloc[[r]])
+        if objects is not None:
+            objects[key] = one
+        return one
+
     try:
         db = _sample_database(sample)
         eps = _eps_arrays(m, labels, sample['eps'])
@@ -844,11 +932,11 @@ def _run_op(m, spec, op):
                                 for df in res])
         if kind == 'validation':
             r, name = op[2], op[3]
-            one = db.mdcev_row_split()[r] if name is None else Database(name, db.data.iloc[[r]])
+            one = one_row(db, name, r)
             return dict(messages=[str(x)[:300] for x in m.validation(one_row=one)])
         if kind == 'one_draw':
             r, d, name, method = op[2:6]
-            one = Database(name, db.data.iloc[[r]])
+            one = one_row(db, name, r)
             if method == 'bisection':
                 res = m.forecast_bisection_one_draw(one_row_of_database=one, total_budget=budget,
                                                     epsilon=eps[r][d].copy(), tolerance_dual=tol_d,
@@ -859,7 +947,7 @@ def _run_op(m, spec, op):
             return dict(solution=None if res is None else
                         [[int(k), float(v)] for k, v in sorted(res.items())])
         r, name, points = op[2:5]
-        one = Database(name, db.data.iloc[[r]])
+        one = one_row(db, name, r)
     except Exception as e:  # noqa
         return dict(exc=_exc(e))
 
@@ -889,8 +977,9 @@ def _run_op(m, spec, op):
 
 def _observe_history(spec, reuse):
     """Runs in the child. reuse=True: ONE model object performs all the operations in sequence.
-    reuse=False: every operation is performed by a model object of its own; one more model object reports
-    the maps and the marginal utilities at zero (root-cause attribution), each data row under its own name."""
+    reuse=False: every use is performed by a model object of its own, which is first given the estimation
+    results in force at that point of the history (if any); for every such state one more model object
+    reports the marginal utilities at zero (root-cause attribution), each data row under its own name."""
     from biogeme.database import Database
 
     labels = spec['labels']
@@ -898,31 +987,48 @@ def _observe_history(spec, reuse):
     view = sample_view(spec, 0)
     o = dict(labels=list(labels), ops=[])
 
-    def new_model():
-        return build_model(view, labels, list(range(n)))[0]
+    def new_model(state=None):
+        m_ = build_model(view, labels, list(range(n)))[0]
+        if state is not None:
+            m_.estimation_results = make_results(beta_values(spec, state))
+        return m_
 
     try:
         m = new_model()
     except Exception as e:  # noqa: constructor refusing a valid model
         o['build_exc'] = _exc(e)
         return o
-    if not reuse:
-        o['index_to_key'] = [int(k) for k in m.index_to_key]
-        o['key_to_index'] = {int(k): int(v) for k, v in m.key_to_index.items()}
-        o['outside_key'] = None if m.outside_good_key is None else int(m.outside_good_key)
-        o['outside_index'] = None if m.outside_good_index is None else int(m.outside_good_index)
-        o['maps_ok'] = (sorted(o['index_to_key']) == sorted(labels)
-                        and all(0 <= o['key_to_index'].get(k, -1) < n and
-                                o['index_to_key'][o['key_to_index'][k]] == k for k in labels))
-        if not o['maps_ok']:
-            return o
-        o['w0'] = []
+    states = op_states(spec['ops'])
+    if reuse:
+        objects = {}
+        for op in spec['ops']:
+            o['ops'].append(_run_op(m, spec, op, objects))
+        return o
+
+    o['index_to_key'] = [int(k) for k in m.index_to_key]
+    o['key_to_index'] = {int(k): int(v) for k, v in m.key_to_index.items()}
+    o['outside_key'] = None if m.outside_good_key is None else int(m.outside_good_key)
+    o['outside_index'] = None if m.outside_good_index is None else int(m.outside_good_index)
+    o['maps_ok'] = (sorted(o['index_to_key']) == sorted(labels)
+                    and all(0 <= o['key_to_index'].get(k, -1) < n and
+                            o['index_to_key'][o['key_to_index'][k]] == k for k in labels))
+    if not o['maps_ok']:
+        return o
+    o['w0'] = {}
+    for state in sorted({st_ for st_, op in zip(states, spec['ops']) if op[0] in ('forecast', 'one_draw')},
+                        key=lambda v: -1 if v is None else v):
+        try:
+            m = new_model(state)
+        except Exception as e:  # noqa
+            o['w0'][str(state)] = dict(exc=_exc(e))
+            continue
+        per_state = []
         for s, sample in enumerate(spec['samples']):
             db = _sample_database(sample)
             eps = _eps_arrays(m, labels, sample['eps'])
             per_sample = []
             for r in range(len(sample['rows'])):
-                one = Database(f'c18_sample{s}_row{r}', db.data.iloc[[r]])
+                one = Database(f'c18_state{state}_sample{s}_row{r}', db.data.iloc[[r]])
                 for d in range(len(sample['eps'][r])):
                     per = {}
                     for i, k in enumerate(labels):
@@ -935,10 +1041,17 @@ def _observe_history(spec, reuse):
                         except Exception as e:  # noqa
                             per[int(k)] = _exc(e)
                     per_sample.append(per)
-            o['w0'].append(per_sample)
-    for op in spec['ops']:
-        if not reuse:
-            m = new_model()
+            per_state.append(per_sample)
+        o['w0'][str(state)] = per_state
+    for state, op in zip(states, spec['ops']):
+        if op[0] == 'results':
+            o['ops'].append(dict(results=op[1]))
+            continue
+        try:
+            m = new_model(state)
+        except Exception as e:  # noqa
+            o['ops'].append(dict(results_exc=_exc(e)))
+            continue
         o['ops'].append(_run_op(m, spec, op))
     return o
 
@@ -984,32 +1097,30 @@ def _same_frames(a, b):
 
 
 def op_rows(spec, op):
-    """[name of the one-row Database, sample, row] for every data row an operation hands to the model
+    """[name of the one-row Database, sample, row] for every data row a use hands to the model
     (forecast() and mdcev_row_split() call row i of any sample 'row_i'). Classification only."""
     kind, s = op[0], op[1]
+    if kind == 'results':
+        return []
     if kind == 'forecast':
         return [[f'row_{r}', s, r] for r in range(len(spec['samples'][s]['rows']))]
-    if kind == 'validation':
-        return [[f'row_{op[2]}' if op[3] is None else op[3], s, op[2]]]
-    if kind == 'one_draw':
-        return [[op[4], s, op[2]]]
-    return [[op[3], s, op[2]]]
+    name = op[4] if kind == 'one_draw' else op[3]
+    return [[f'row_{op[2]}' if name is None else name, s, op[2]]]
 
 
-def _utilities_differ(spec, a, b):
+def _utilities_differ(spec, a, state_a, b, state_b):
+    """Do the deterministic parts (V, mu) of the utilities of two (row, parameter values) differ?"""
     ra, rb = spec['samples'][a[1]]['rows'][a[2]], spec['samples'][b[1]]['rows'][b[2]]
-    return any(abs(_lin(alt['V'], ra) - _lin(alt['V'], rb)) > 1e-3 for alt in spec['alts'])
+    alts_a, alts_b = params_view(spec, state_a)['alts'], params_view(spec, state_b)['alts']
+    return any(abs(_lin(x[t], ra) - _lin(y[t], rb)) > 1e-3
+               for x, y in zip(alts_a, alts_b) for t in ('V', 'mu') if t in x)
 
 
-def judge_history(spec) -> Outcome:
-    out = Outcome()
-    variant, labels, ops = spec['variant'], spec['labels'], spec['ops']
-    outside_pos = next((i for i, a in enumerate(spec['alts']) if a['gamma'] is None), None)
-    out.classes += [f'history:variant={variant}', f'history:ops={len(ops)}',
-                    f'history:outside_good={"yes" if outside_pos is not None else "no"}',
-                    f'history:kind={spec["kind"]}']
-    out.evaluations = len(ops)
-    # a later operation hands the model a one-row Database with the name of an earlier one
+def history_classes(spec):
+    """(classes, non-trivial) of a history, from the spec alone."""
+    ops, states = spec['ops'], op_states(spec['ops'])
+    classes = []
+    # a later use hands the model a one-row Database with the name of an earlier one
     shared, stale = False, False
     for k in range(1, len(ops)):
         for j in range(k):
@@ -1017,13 +1128,45 @@ def judge_history(spec) -> Outcome:
                 for b in op_rows(spec, ops[k]):
                     if a[0] == b[0]:
                         shared = True
-                        if _utilities_differ(spec, a, b):
+                        if _utilities_differ(spec, a, states[j], b, states[k]):
                             stale = True
-                            out.classes.append(f'history:{ops[j][0]}>{ops[k][0]}:same_name_other_utilities')
-    out.classes.append('history:row_names=' + ('shared_other_utilities' if stale else
-                                               'shared_same_utilities' if shared else 'distinct'))
-    out.nontrivial = stale
-    where = _render_model(spec, labels) + ' (V, mu shown for row 0 of the first sample)'
+                            classes.append(f'history:{ops[j][0]}>{ops[k][0]}:same_name_other_utilities')
+    classes.append('history:row_names=' + ('shared_other_utilities' if stale else
+                                           'shared_same_utilities' if shared else 'distinct'))
+    # a use after new estimation results is handed a one-row Database OBJECT used under other values
+    objects, same_object = {}, False
+    for j, op in enumerate(ops):
+        if op[0] in ('results', 'forecast'):
+            continue
+        key = (op[4] if op[0] == 'one_draw' else op[3], op[1], op[2])
+        if op[-1] and key in objects:
+            here = [None, op[1], op[2]]
+            if any(st_ != states[j] and _utilities_differ(spec, here, st_, here, states[j])
+                   for st_ in objects[key]):
+                same_object = True
+                classes.append(f'history:after_new_results:{op[0]}:same_database_object')
+            objects[key].append(states[j])
+        else:
+            objects[key] = [states[j]]
+            if states[j] is not None:
+                classes.append(f'history:after_new_results:{op[0]}:new_database_object')
+    n_results = sum(1 for op in ops if op[0] == 'results')
+    classes.append(f'history:results_given={min(n_results, 2)}{"+" if n_results >= 2 else ""}')
+    return classes, stale or same_object
+
+
+def judge_history(spec) -> Outcome:
+    out = Outcome()
+    variant, labels, ops = spec['variant'], spec['labels'], spec['ops']
+    states = op_states(ops)
+    outside_pos = next((i for i, a in enumerate(spec['alts']) if a['gamma'] is None), None)
+    out.classes += [f'history:variant={variant}', f'history:uses={sum(1 for op in ops if op[0] != "results")}',
+                    f'history:outside_good={"yes" if outside_pos is not None else "no"}',
+                    f'history:kind={spec["kind"]}']
+    out.evaluations = sum(1 for op in ops if op[0] != 'results')
+    classes, out.nontrivial = history_classes(spec)
+    out.classes += classes
+    where0 = _render_model(spec, labels) + ' (V, mu shown for row 0 of the first sample)'
 
     res_f = isolate.call(_observe_history, spec, False)
     res_r = isolate.call(_observe_history, spec, True)
@@ -1037,32 +1180,58 @@ def judge_history(spec) -> Outcome:
     for o_ in (base, reused):
         if 'build_exc' in o_:
             out.fail(f'construct:{variant}:raises:{o_["build_exc"]["type"]}',
-                     f'{where}: constructor raised {o_["build_exc"]}')
+                     f'{where0}: constructor raised {o_["build_exc"]}')
             return out
     if not base['maps_ok']:
-        out.fail(f'maps:{variant}', f'{where}: index_to_key={base["index_to_key"]} key_to_index='
+        out.fail(f'maps:{variant}', f'{where0}: index_to_key={base["index_to_key"]} key_to_index='
                  f'{base["key_to_index"]} are not inverse bijections between labels and 0..n-1')
         return out
     common = {k: base[k] for k in ('labels', 'maps_ok', 'index_to_key', 'key_to_index', 'outside_key',
                                    'outside_index')}
 
     for j, op in enumerate(ops):
-        kind, s = op[0], op[1]
+        kind, state = op[0], states[j]
         f, r = base['ops'][j], reused['ops'][j]
+        tag_r = f'one model object, {" then ".join(_render_op(spec, o_) for o_ in ops[:j + 1])}'
+        if kind == 'results':
+            if 'exc' in r:
+                out.fail(f'reuse:{variant}:results:raises:{r["exc"]["type"]}',
+                         f'{where0}: [{tag_r}] raised {r["exc"]}')
+            continue
+        s = op[1]
         sample = spec['samples'][s]
         n_draws = len(sample['eps'][0])
-        tag_f = f'a new model object, {_render_op(spec, op)}'
-        tag_r = f'one model object, {" then ".join(_render_op(spec, o_) for o_ in ops[:j + 1])}'
-        key_r = lambda aspect, _k=kind: f'reuse:{variant}:{_k}:{aspect}'  # noqa: E731
+        # the oracle is about the parameter values in force
+        pv = params_view(spec, state)
+        where = where0 if state is None else \
+            _render_model(pv, labels) + f' (values of the estimation results #{state}; V, mu shown for row 0 of the first sample)'
+        given = '' if state is None else f'given the estimation results #{state}, '
+        tag_f = f'a new model object, {given}{_render_op(spec, op)}'
+        # failure keys: the reused object / the new object (which is the business of the other sub-checks
+        # unless it has been given estimation results)
+        if state is None:
+            key_r = lambda aspect, _k=kind: f'reuse:{variant}:{_k}:{aspect}'  # noqa: E731
+            key_f = None
+        else:
+            key_r = lambda aspect, _k=kind: f'reuse:{variant}:{_k}:after_new_results:{aspect}'  # noqa: E731
+            key_f = lambda aspect, _k=kind: f'new_results:{variant}:{_k}:{aspect}'  # noqa: E731
         brute = (kind == 'forecast' and op[2]) or (kind == 'one_draw' and op[5] == 'bruteforce')
         before = len(out.failures)
+        if 'results_exc' in f:
+            out.fail(f'new_results:{variant}:raises:{f["results_exc"]["type"]}',
+                     f'{where}: a new model object given the estimation results #{state} '
+                     f'{beta_values(spec, state)} raised {f["results_exc"]}')
+            continue
 
-        if kind == 'forecast' and not brute or kind == 'one_draw' and not brute:
+        if kind in ('forecast', 'one_draw') and not brute:
             # the same oracle as sub-check 1, first on the new model object, then on the reused one
+            w0 = base['w0'][str(state)]
+            if isinstance(w0, dict):
+                continue  # the new model object refused the results: reported above for its own use
             if kind == 'forecast':
-                view, w0 = sample_view(spec, s), base['w0'][s]
+                view, w0 = sample_view(pv, s), w0[s]
             else:
-                view, w0 = sample_view(spec, s, op[2], op[3]), [base['w0'][s][op[2] * n_draws + op[3]]]
+                view, w0 = sample_view(pv, s, op[2], op[3]), [w0[s][op[2] * n_draws + op[3]]]
             observed = []
             for o_ in (f, r):
                 obs = dict(common, w0=w0)
@@ -1074,9 +1243,9 @@ def judge_history(spec) -> Outcome:
                     sol = o_['solution']
                     obs['forecast'] = dict(frames=[dict(columns=[k for k, _ in sol], rows=[[v for _, v in sol]])])
                 observed.append(obs)
-            judge_labelling(out, view, observed[0], tag_f)
+            judge_labelling(out, view, observed[0], tag_f, key=key_f)
             if len(out.failures) > before:
-                continue  # not a matter of the history: sub-check 1 is about this
+                continue  # not a matter of the history
             judge_labelling(out, view, observed[1], tag_r, key=key_r)
             if 'forecast' in observed[1] and \
                     not _same_frames(observed[0]['forecast']['frames'], observed[1]['forecast']['frames']):
@@ -1110,19 +1279,20 @@ def judge_history(spec) -> Outcome:
             continue
 
         row = sample['rows'][op[2]]
+        pieces_key = (lambda aspect: f'pieces:{variant}:{aspect}') if key_f is None else key_f  # noqa: E731
         if kind == 'validation':
             if 'exc' in f:
-                out.fail(f'pieces:{variant}:validation:raises:{f["exc"]["type"]}',
+                out.fail(pieces_key(f'validation:raises:{f["exc"]["type"]}'),
                          f'{where}: [{tag_f}] raised {f["exc"]}')
                 continue
             if 'exc' in r:
                 out.fail(key_r(f'raises:{r["exc"]["type"]}'), f'{where}: [{tag_r}] raised {r["exc"]}')
                 continue
-            relevant = relevant_validation(spec, row, labels, f['messages'])
+            relevant = relevant_validation(pv, row, labels, f['messages'])
             if relevant:
-                out.fail(f'pieces:{variant}:validation:reports', f'{where}: [{tag_f}] reports {relevant[:2]}')
+                out.fail(pieces_key('validation:reports'), f'{where}: [{tag_f}] reports {relevant[:2]}')
                 continue
-            relevant = relevant_validation(spec, row, labels, r['messages'])
+            relevant = relevant_validation(pv, row, labels, r['messages'])
             if relevant:
                 out.fail(key_r('reports'), f'{where}: [{tag_r}] reports {relevant[:2]}, [{tag_f}] does not')
             if not _same_messages(f['messages'], r['messages']):
@@ -1132,7 +1302,7 @@ def judge_history(spec) -> Outcome:
 
         # pieces
         if 'exc' in f:
-            out.fail(f'pieces:{variant}:one_row_database:raises:{f["exc"]["type"]}',
+            out.fail(pieces_key(f'one_row_database:raises:{f["exc"]["type"]}'),
                      f'{where}: [{tag_f}] raised {f["exc"]}')
             continue
         if 'exc' in r:
@@ -1140,21 +1310,21 @@ def judge_history(spec) -> Outcome:
             continue
         seen = set()
 
-        def fail_f(aspect, msg):
+        def fail_f(aspect, msg, _key=pieces_key, _plain=key_f is None):
             if aspect not in seen:
                 seen.add(aspect)
-                out.fail(aspect if aspect.startswith('derivative_at_zero') else f'pieces:{variant}:{aspect}', msg)
+                out.fail(aspect if _plain and aspect.startswith('derivative_at_zero') else _key(aspect), msg)
 
         def fail_r(aspect, msg, _key=key_r):
             if aspect not in seen:
                 seen.add(aspect)
                 out.fail(_key(aspect), msg)
 
-        judge_points(fail_f, None, spec, row, labels, op[4], f['points'], base['outside_index'],
+        judge_points(fail_f, None, pv, row, labels, op[4], f['points'], base['outside_index'],
                      f'{where} [{tag_f}]')
         if len(out.failures) > before:
             continue
-        judge_points(fail_r, None, spec, row, labels, op[4], r['points'], base['outside_index'],
+        judge_points(fail_r, None, pv, row, labels, op[4], r['points'], base['outside_index'],
                      f'{where} [{tag_r}]')
         for point, pf, pr in zip(op[4], f['points'], r['points']):
             bad = [name for name in ('u_num', 'du_num', 'x_opt', 'du_at_opt')
@@ -1264,6 +1434,31 @@ _ROW_NAMES = ['row_0', 'row_0', 'row_0', 'row_1', 'obs', 'c18_rows']
 
 
 @st.composite
+def _parameter_vector(draw, spec):
+    """Other values for the parameters of the model (same structure: outside good, variables, scale)."""
+    alts = []
+    for alt in spec['alts']:
+        new = dict(V=dict(c=draw(_r(-1.5, 1.5)), b=[[name, draw(_r(-1.0, 1.0))] for name, _ in alt['V']['b']]),
+                   gamma=None if alt['gamma'] is None else draw(_logr(0.05, 20.0)),
+                   alpha=draw(_r(0.05, 0.95)), price=alt['price'])
+        if 'mu' in alt:
+            new['mu'] = dict(c=draw(_r(-1.5, 1.5)), b=[[name, draw(_r(-1.0, 1.0))] for name, _ in alt['mu']['b']])
+        alts.append(new)
+    return dict(alts=alts, scale=None if spec['scale'] is None else draw(_logr(0.5, 4.0)))
+
+
+def _point_in_domain(pv, point, row):
+    """Is the multiplier of a generated point one that _pieces_case could have drawn under the parameter
+    values of pv (closed-form expenditure positive)?"""
+    i, _, eps, lam = point
+    alt = RefAlt(pv['variant'], pv['alts'][i], pv['prices'], pv['scale'], row, eps)
+    if alt.outside:
+        return alt.du(1.0 / 0.02 - 1.0 + 1e-3) <= lam <= alt.du(1.0 / 0.98 - 1.0 + 1e-3)
+    w = alt.du(0.0)
+    return alt.m + 0.02 * (w - alt.m) <= lam <= alt.m + 0.98 * (w - alt.m)
+
+
+@st.composite
 def _history_case(draw, tier):
     spec = draw(_model(tier))
     n = len(spec['alts'])
@@ -1280,31 +1475,58 @@ def _history_case(draw, tier):
     spec['budget'] = draw(_logr(0.2, 400.0))
     spec['tol_dual'] = draw(st.sampled_from([1e-10, 1e-10, 1e-13]))
     spec['tol_budget'] = draw(st.sampled_from([1e-10, 1e-10, 1e-8]))
-    ops = []
+    # estimation results exist for models whose parameters are free
+    spec['results'] = [draw(_parameter_vector(spec)) for _ in range(draw(st.sampled_from([2, 3])))] \
+        if spec['kind'] == 'beta' else []
+    ops, state = [], None
+    made = []  # [name, s, r, points or None]: the one-row Databases handed to the model so far
     for j in range(draw(st.sampled_from([2, 2, 3, 4]))):
-        # the first two uses are about two different samples
+        new_results = bool(spec['results']) and draw(st.sampled_from([False, True] if j else
+                                                                     [False, False, False, True]))
+        if new_results:
+            state = draw(st.integers(0, len(spec['results']) - 1))
+            ops.append(['results', state])
+        pv = params_view(spec, state)
+        # right after new results: mostly a use of a one-row Database the model has already seen
+        kind = draw(st.sampled_from(['forecast', 'forecast', 'forecast'][:1 if new_results and made else 3] +
+                                    ['validation', 'validation', 'one_draw', 'one_draw', 'pieces', 'pieces']))
+        # the first two uses are about two different samples, unless the second one is about a one-row
+        # Database made for the first one
         s = j if j < 2 else draw(st.integers(0, len(samples) - 1))
-        rows = samples[s]['rows']
-        kind = draw(st.sampled_from(['forecast', 'forecast', 'forecast', 'validation', 'validation',
-                                     'one_draw', 'one_draw', 'pieces', 'pieces']))
-        r = draw(st.sampled_from([0] + list(range(len(rows)))))
         if kind == 'forecast':
             ops.append([kind, s, draw(st.sampled_from([False, False, False, True]))])
-        elif kind == 'validation':
-            ops.append([kind, s, r, draw(st.one_of(st.none(), st.sampled_from(_ROW_NAMES)))])
-        elif kind == 'one_draw':
-            ops.append([kind, s, r, draw(st.integers(0, n_draws - 1)), draw(st.sampled_from(_ROW_NAMES)),
-                        draw(st.sampled_from(['bisection', 'bisection', 'bruteforce']))])
+            continue
+        again = draw(st.sampled_from(made)) if made and draw(st.sampled_from(
+            [True, True, True, False] if new_results else [True, False])) else None
+        if again is not None:
+            name, s, r = again[:3]
+            same_object = draw(st.sampled_from([True, True, True, False]))
         else:
-            points = []
-            for _ in range(draw(st.integers(1, 3))):
-                i = draw(st.integers(0, n - 1))
-                inside = spec['alts'][i]['gamma'] is not None
-                x = draw(st.one_of(st.just(0.0), _logr(1e-3, 1e3), _logr(1e-3, 1e3))) if inside \
-                    else draw(_logr(1e-3, 1e3))
-                eps = draw(_GUMBEL)
-                points.append([i, x, eps, _point_lambda(spec, i, eps, draw(_r(0.02, 0.98)), rows[r])])
-            ops.append([kind, s, r, draw(st.sampled_from(_ROW_NAMES)), points])
+            r = draw(st.sampled_from([0] + list(range(len(samples[s]['rows'])))))
+            name = draw(st.one_of(st.none(), st.sampled_from(_ROW_NAMES))) if kind == 'validation' \
+                else draw(st.sampled_from(_ROW_NAMES))
+            same_object = draw(st.booleans())
+        row = samples[s]['rows'][r]
+        points = None
+        if kind == 'validation':
+            ops.append([kind, s, r, name, same_object])
+        elif kind == 'one_draw':
+            ops.append([kind, s, r, draw(st.integers(0, n_draws - 1)), name,
+                        draw(st.sampled_from(['bisection', 'bisection', 'bruteforce'])), same_object])
+        else:
+            # the points of an earlier use again (if they are in the domain for the values in force), or new ones
+            points = [p for p in (again[3] or [] if again is not None else []) if _point_in_domain(pv, p, row)]
+            if not points or draw(st.booleans()):
+                points = []
+                for _ in range(draw(st.integers(1, 3))):
+                    i = draw(st.integers(0, n - 1))
+                    inside = spec['alts'][i]['gamma'] is not None
+                    x = draw(st.one_of(st.just(0.0), _logr(1e-3, 1e3), _logr(1e-3, 1e3))) if inside \
+                        else draw(_logr(1e-3, 1e3))
+                    eps = draw(_GUMBEL)
+                    points.append([i, x, eps, _point_lambda(pv, i, eps, draw(_r(0.02, 0.98)), row)])
+            ops.append([kind, s, r, name, points, same_object])
+        made.append([name, s, r, points])
     spec['ops'] = ops
     return spec
 
@@ -1353,13 +1575,16 @@ def _render_pieces(spec):
 
 def _render_op(spec, op):
     kind, s = op[0], op[1]
+    if kind == 'results':
+        return f'estimation_results = bioResults with the values #{op[1]} {beta_values(spec, op[1])}'
     sample = spec['samples'][s]
     if kind == 'forecast':
         return (f'forecast(Database({sample["name"]!r}, rows={sample["rows"]}), epsilons[row][draw][alternative]='
                 f'{sample["eps"]}, brute_force={op[2]})')
-    one = (f'Database({sample["name"]!r}, rows={sample["rows"]}).mdcev_row_split()[{op[2]}]'
-           if kind == 'validation' and op[3] is None else
-           f'Database({op[3] if kind != "one_draw" else op[4]!r}, {sample["rows"][op[2]]})')
+    name = op[4] if kind == 'one_draw' else op[3]
+    one = (f'Database({sample["name"]!r}, rows={sample["rows"]}).mdcev_row_split()[{op[2]}]' if name is None else
+           f'Database({name!r}, {sample["rows"][op[2]]})') + \
+        (' [the object made before for this name and row, if any]' if op[-1] else ' [new object]')
     if kind == 'validation':
         return f'validation({one})'
     if kind == 'one_draw':
@@ -1388,10 +1613,13 @@ SUBCHECKS = [
     SubCheck('history', strat_history, judge_history, _render_history,
              dict(quick=600, thorough=12000),
              '2-4 uses of ONE model object (forecast by bisection or brute force, validation, one-draw forecasts and '
-             'numeric pieces on hand-made one-row Databases whose names repeat) on 2-3 samples of 1-2 rows: every '
-             'use is judged by the oracles of the other sub-checks (Kuhn-Tucker conditions, report formulas, '
-             'validation reports) for the rows it was given, and equals the same use by a new model object; '
+             'numeric pieces on one-row Databases whose names repeat, new objects or the objects of earlier uses) on '
+             '2-3 samples of 1-2 rows, possibly with new estimation results (other values of the free parameters) '
+             'given to the model between two uses: every use is judged by the oracles of the other sub-checks '
+             '(Kuhn-Tucker conditions, report formulas, validation reports) for the rows it was given and the '
+             'parameter values in force, and equals the same use by a new model object given the same results; '
              'non-trivial if a later use hands the model a one-row Database carrying the name of an earlier one '
-             '(forecast and mdcev_row_split call row i of every sample row_i) with other baseline utilities'),
+             '(forecast and mdcev_row_split call row i of every sample row_i) with other baseline utilities, or, '
+             'after new estimation results, a one-row Database object already used under other values'),
 ]
 RULE = ' | '.join(f'{s.name}: {s.rule}' for s in SUBCHECKS)
